@@ -2,19 +2,19 @@ import LpModel.DriverLib
 import LpModel.C06
 open Lp Lp.C06
 
-/-- `std::numeric_limits<double>::epsilon()` and `min()/epsilon()` -/
+/-- `std::numeric_limits<double>::epsilon()` and `min()/epsilon()`; the loops take their `eps` from the source: `K.pserEps`, `K.qcfEps` -/
 def epsD : Rat := pow2 (-52)
 def fpminD : Rat := pow2 (-970)
 def fuelD : Nat := 200000
 
 def showSeries (x a : Rat) : String :=
-  match pserLoop epsD x fuelD (pserInit a) 0 with
+  match pserLoop K.pserEps x fuelD (pserInit a) 0 with
   | some (s, n) => "ok series " ++ showRat s.sum ++ " " ++ toString n ++ " " ++ showRat (lanczosSum a)
   | none => "undef"
 
 def showCf (x a : Rat) : String :=
   if x + 1 - a = 0 then "undef" else
-  match lentzLoop epsD fpminD a fuelD (lentzInit fpminD x a) 0 with
+  match lentzLoop K.qcfEps fpminD a fuelD (lentzInit fpminD x a) 0 with
   | some (s, n) => "ok cf " ++ showRat s.h ++ " " ++ toString n ++ " " ++ showRat (lanczosSum a)
   | none => "undef"
 
